@@ -197,6 +197,8 @@ def rule_symmetry(ctx, cd):
         t = cd.tmpl("py", which)
         for mname in sorted(cd.ts.macros(t)):
             kind = mname.replace("_serialize_", "").replace("_deserialize_", "")
+            if _codec.judged_at_call_sites(cd.ts, t, mname):
+                continue        # a helper: its accessors are counted in the emitters that print it
             for p in cd.paths("py", which, mname):
                 text = cd.text("py", p)
                 for m in re.finditer(rf"{obj}\.{pre}((?:Pz\d+z|\w)+?)\(", text):
